@@ -128,7 +128,7 @@ int cp_ghpe_enc(bn_t c, const bn_t m, const bn_t pub, size_t s) {
 
 int cp_ghpe_dec(bn_t m, const bn_t c, const bn_t pub, const bn_t prv,
 		size_t s) {
-	bn_t i, l, r, t, u, v, x;
+	bn_t i, l, r, t, u, v, x, y;
 	int result = RLC_OK;
 	dig_t fk;
 
@@ -143,6 +143,7 @@ int cp_ghpe_dec(bn_t m, const bn_t c, const bn_t pub, const bn_t prv,
 	bn_null(u);
 	bn_null(v);
 	bn_null(x);
+	bn_null(y);
 
 	RLC_TRY {
 		bn_new(i);
@@ -152,6 +153,7 @@ int cp_ghpe_dec(bn_t m, const bn_t c, const bn_t pub, const bn_t prv,
 		bn_new(u);
 		bn_new(v);
 		bn_new(x);
+		bn_new(y);
 
 		/* t = n^(s + 1). */
 		bn_sqr(t, pub);
@@ -183,7 +185,10 @@ int cp_ghpe_dec(bn_t m, const bn_t c, const bn_t pub, const bn_t prv,
 				bn_mod(v, v, t);
 				/* t1 = t1 - t2 * n^(k-1)/k! mod n^j. */
 				bn_mul(x, v, l);
-				bn_div_dig(x, x, fk);
+				bn_mod(x, x, t);
+				bn_set_dig(y, fk);
+				bn_mod_inv(y, y, t);
+				bn_mul(x, x, y);
 				bn_mod(x, x, t);
 				bn_sub(u, u, x);
 				while (bn_sign(u) == RLC_NEG) {
@@ -211,6 +216,7 @@ int cp_ghpe_dec(bn_t m, const bn_t c, const bn_t pub, const bn_t prv,
 		bn_free(u);
 		bn_free(v);
 		bn_free(x);
+		bn_free(y);
 	}
 
 	return result;
